@@ -50,7 +50,9 @@ def base_spec(rng, fam):
     return spec
 
 
-def run_case(case):
+def run_case(case, judge="c09"):
+    """judge='c07': same placed runs, judged by the status oracle of C07
+    (used by that check's 'placed' family)."""
     rng = e2e.rng_of(ID, case)
     fam = case["fam"]
     force_kind = None
@@ -175,6 +177,11 @@ def run_case(case):
         if use_tol:
             spec2["options"]["feasibility_tol"] = r["v"] * 1.001
             tags.append("target+tol")
+            if rng.random() < 0.5:
+                # a small filter: the point that meets the request is the
+                # least feasible of the retained points
+                spec2["options"]["filter_size"] = int(rng.integers(1, 4))
+                tags.append("small_filter")
         if fam == "target":
             spec2["options"]["target"] = r["f"]
             if rng.random() < 0.3:
@@ -205,6 +212,11 @@ def run_case(case):
             return e2e.record(case, [], tags=tags + ["rerun:diverged"],
                               counts=counts, skipped=True)
         viols, info = oracles.o_c09(rec)
+        if judge == "c07":
+            viols = oracles.o_c07(rec)[0]
+        else:
+            viols += [v for v in oracles.o_c07(rec)[0]
+                      if v["clause"] == "status1_target"]
         if rec.exc is not None:
             viols.append(oracles.V(
                 "exception_at_trigger",
